@@ -87,6 +87,8 @@ class P(C07):
                     kinds = [rng.choice(fk)] + [rng.choice(ok + fk + ["unknown-enterprise"]) for _ in range(rng.choice([1, 2, 3]))]
                 else:
                     kinds = [rng.choice(ok + ["unknown"]) for _ in range(rng.choice([1, 2, 3]))] if ok else ["unknown"]
+                # a third of the LISTED samples carry content the collector could not decode (they are skipped unread, so it can not matter)
+                kinds = [(k + "-opaque") if (k in fk and rng.random() < 0.33) else k for k in kinds]
                 p, hdr, samples = sfgen.gen_datagram(rng, kinds=kinds, small_header=(filt if rng.random() < 0.5 else None))
                 if len(p) <= 1400:
                     dg.append((bytes([192, 0, 2, rng.randrange(1, 5)]), p, hdr, samples))
